@@ -179,33 +179,54 @@ theorem nmOf_host (cfg : Cfg) (i : In) (hn : isNode (findMostRecent (psOf i)) = 
     | some p => simpa using List.find?_some hf
 
 /-- every site at which `performSwitchover` can die, with the exact condition that reaches it.  (This is
-stronger than `C20.switchover_panics_only_if`: the host missing from the second view is named.) -/
+stronger than `C20.switchover_panics_only_if`: the host missing from the second view is named, and no site
+depends on the FIRST view any more — since fix fc0b66f a listed host or a recorded master that is not a
+registered host ends the procedure with `fail "host is not among cluster hosts"` before anything is touched; the branch
+`panic "clusterState[oldMaster]"` is still in the text of the model but is never taken.) -/
 theorem switchover_panic_sites (cfg : Cfg) (i : In) (site : String)
     (h : Step.panic site ∈ performSwitchover cfg i) :
-    (site = "clusterState[host]" ∧ ∃ x, x ∈ workList i ∧ pingOk i.cs x = none) ∨
-    (site = "clusterState[oldMaster]" ∧ pingOk i.cs i.oldMaster = none) ∨
     (site = "positions[0]" ∧ i.positions = some []) ∨
     (site = "clusterState[newMaster]" ∧ ∃ ps, i.positions = some ps ∧
       ((nmOf cfg i).host = i.sw.to ∨ nmOf cfg i ∈ ps) ∧ pingOk i.cs2 (nmOf cfg i).host = none) ∨
     (site = "clusterState[host]" ∧ ∃ x, x ∈ workList i ∧ pingOk i.cs2 x = none) := by
   rw [performSwitchover_eq] at h
   simp [stages, sPre, sPreA, sOnly, sNode, sPick, pStages, pHead, pReset, pWritable, pEvents, mem_run_cons] at h
-  obtain ⟨_, _, _, _, h⟩ := h
-  rcases h with ⟨_, _, h⟩ | ⟨hx, hs⟩
-  · rcases h with ⟨_, _, _, ⟨hpos, _⟩, _, h⟩ | ⟨ho, hs⟩
-    · obtain ⟨ps, hps⟩ := Option.isSome_iff_exists.mp hpos
-      have hpsOf : psOf i = ps := by simp [psOf, hps]
-      rcases h with ⟨hn, hpick, _, _, _, _, h⟩ | ⟨_, hp, hs⟩
-      · rcases h with ⟨_, _, _, hx, hs⟩ | ⟨hnm, hs⟩
-        · exact Or.inr (Or.inr (Or.inr (Or.inr ⟨hs, hx⟩)))
-        · refine Or.inr (Or.inr (Or.inr (Or.inl ⟨hs, ps, hps, ?_, hnm⟩)))
-          have := nmOf_host cfg i hn hpick
-          rwa [hpsOf] at this
-      · refine Or.inr (Or.inr (Or.inl ⟨hs, ?_⟩))
-        rw [hpsOf] at hp
-        rw [hps, findMostRecent_panic hp]
-    · exact Or.inr (Or.inl ⟨hs, ho⟩)
-  · exact Or.inl ⟨hs, hx⟩
+  obtain ⟨_, _, ⟨_, hom⟩, _, _, _, _, h⟩ := h
+  rcases h with ⟨_, _, _, ⟨hpos, _⟩, _, h⟩ | ⟨ho, _⟩
+  · obtain ⟨ps, hps⟩ := Option.isSome_iff_exists.mp hpos
+    have hpsOf : psOf i = ps := by simp [psOf, hps]
+    rcases h with ⟨hn, hpick, _, _, _, _, h⟩ | ⟨_, hp, hs⟩
+    · rcases h with ⟨_, _, _, hx, hs⟩ | ⟨hnm, hs⟩
+      · exact Or.inr (Or.inr ⟨hs, hx⟩)
+      · refine Or.inr (Or.inl ⟨hs, ps, hps, ?_, hnm⟩)
+        have := nmOf_host cfg i hn hpick
+        rwa [hpsOf] at this
+    · refine Or.inl ⟨hs, ?_⟩
+      rw [hpsOf] at hp
+      rw [hps, findMostRecent_panic hp]
+  · -- the `clusterState[oldMaster]` stage: its guard was already established by the registration check
+    rw [ho] at hom
+    cases hom
+
+/-- the procedure dies only after the first view was found complete: every listed host and the recorded
+master have an entry in it (the first disjunct of `C20.switchover_panics_only_if` is never the reason) -/
+theorem switchover_panic_first_view_complete (cfg : Cfg) (i : In) (site : String)
+    (h : Step.panic site ∈ performSwitchover cfg i) :
+    ∀ x, (x ∈ workList i ∨ x = i.oldMaster) → pingOk i.cs x ≠ none := by
+  rw [performSwitchover_eq] at h
+  simp [stages, sPre, sPreA, sOnly, sNode, sPick, pStages, pHead, pReset, pWritable, pEvents, mem_run_cons] at h
+  obtain ⟨_, _, ⟨hwl, hom⟩, _⟩ := h
+  rintro x (hx | rfl)
+  · exact hwl x hx
+  · intro hn
+    rw [hn] at hom
+    cases hom
+
+/-- in particular the site `clusterState[oldMaster]` is dead code -/
+theorem oldMaster_stage_unreachable (cfg : Cfg) (i : In) :
+    Step.panic "clusterState[oldMaster]" ∉ performSwitchover cfg i := by
+  intro h
+  rcases switchover_panic_sites cfg i _ h with ⟨hs, _⟩ | ⟨hs, _⟩ | ⟨hs, _⟩ <;> simp at hs
 
 /-- the same in the vocabulary of the model only: the host missing from the second view is one of the
 published list, the requested target, or the host of a collected position.  (In
@@ -216,10 +237,7 @@ theorem switchover_panics_only_if_precise (cfg : Cfg) (i : In) (site : String)
     (∃ x, (x ∈ workList i ∨ x = i.sw.to ∨ ∃ ps p, i.positions = some ps ∧ p ∈ ps ∧ x = p.host) ∧
       pingOk i.cs2 x = none) ∨
     i.positions = some [] := by
-  rcases switchover_panic_sites cfg i site h with
-    ⟨_, x, hx, hn⟩ | ⟨_, hn⟩ | ⟨_, hp⟩ | ⟨_, ps, hps, hnm, hn⟩ | ⟨_, x, hx, hn⟩
-  · exact Or.inl ⟨x, Or.inl hx, hn⟩
-  · exact Or.inl ⟨i.oldMaster, Or.inr rfl, hn⟩
+  rcases switchover_panic_sites cfg i site h with ⟨_, hp⟩ | ⟨_, ps, hps, hnm, hn⟩ | ⟨_, x, hx, hn⟩
   · exact Or.inr (Or.inr hp)
   · refine Or.inr (Or.inl ⟨_, ?_, hn⟩)
     rcases hnm with hnm | hnm
